@@ -62,8 +62,7 @@ def path(name: str) -> str:
 def load(name: str):
     import qrules
 
-    with open(path(name)) as f:
-        return qrules.io.fromdict(json.load(f))
+    return qrules.io.load(path(name))
 
 
 def names() -> list[str]:
@@ -84,8 +83,7 @@ if __name__ == "__main__":
             except Exception as e:  # noqa: BLE001
                 print(n, "FAILED", repr(e)[:200], flush=True)
                 continue
-            with open(path(n), "w") as f:
-                json.dump(qrules.io.asdict(r), f, separators=(",", ":"))
+            qrules.io.write(r, path(n))
             back = load(n)
             assert back == r, n
             print(n, "transitions", len(r.transitions), "topologies", len({t.topology for t in r.transitions}), flush=True)
